@@ -1,3 +1,4 @@
 import Driver.Util
 import Driver.SemDrv
+import Driver.StopDrv
 import Driver.Main
